@@ -52,6 +52,28 @@ DocIntoImpls(n, forms, hasStructAttr, fattr) ==
         tupleImpls == IF fattr = 0 \/ hasStructAttr THEN {<<f, "tuple">> : f \in fs} ELSE {}
         fieldImpls == IF fattr # 0 THEN {<<"owned", "field", fattr>>} ELSE {}
     IN tupleImpls \cup fieldImpls
+\* The reference forms may be spread over several #[into(...)] attributes, in any order: into.rs `merge_attrs` folds
+\* them into one record of three flags, each flag the OR of that flag in every attribute.
+FormFlags(f) == [owned |-> f = "owned", ref |-> f = "ref", ref_mut |-> f = "ref_mut"]
+MergeForms(prev, new) == [owned   |-> prev.owned \/ new.owned,
+                          ref     |-> prev.ref \/ new.ref,
+                          ref_mut |-> prev.ref_mut \/ new.ref_mut]
+ImplMergedForms(attrs) ==          \* attrs: Seq of sets of forms, one per attribute
+    LET One(a) == [owned |-> "owned" \in a, ref |-> "ref" \in a, ref_mut |-> "ref_mut" \in a]
+        RECURSIVE Go(_, _)
+        Go(acc, i) == IF i > Len(attrs) THEN acc ELSE Go(MergeForms(acc, One(attrs[i])), i + 1)
+        r == Go(One({}), 1)
+    IN  {f \in {"owned", "ref", "ref_mut"} : (f = "owned" /\ r.owned) \/ (f = "ref" /\ r.ref) \/ (f = "ref_mut" /\ r.ref_mut)}
+\* the attribute sequence a spelling stands for ("one": a single attribute; "each": one attribute per form in the order
+\* owned, ref, ref_mut; "rev": the same reversed)
+Spelling(forms, split) ==
+    LET ord == <<"owned", "ref", "ref_mut">>
+        sel == SelectSeq(ord, LAMBDA f : f \in forms)
+        n == Len(sel)
+    IN  CASE split = "one"  -> <<forms>>
+          [] split = "each" -> [i \in 1..n |-> {sel[i]}]
+          [] split = "rev"  -> [i \in 1..n |-> {sel[n + 1 - i]}]
+
 \* the components of the tuple conversion: the non-skipped fields, in order
 IntoComponents(n, skip) == LET RECURSIVE Go(_) Go(i) == IF i > n THEN <<>> ELSE (IF i \in skip THEN <<>> ELSE <<i>>) \o Go(i + 1) IN Go(1)
 
